@@ -17,8 +17,13 @@
 //!     so only their balance is visible: `project` in the driver).
 
 use std::cell::RefCell;
+use std::collections::HashMap;
+use std::rc::Rc;
 use texlang::traits::*;
+use texlang::vm::implement_has_component;
 use texlang::*;
+use texlang_common as tc;
+use texlang_stdlib as lib;
 use texlang_stdlib::StdLibState;
 use vh::*;
 
@@ -157,9 +162,9 @@ thread_local! {
 }
 
 struct Rec;
-impl vm::Handlers<StdLibState> for Rec {
+impl<S: TexlangState> vm::Handlers<S> for Rec {
     fn character_handler(
-        input: &mut vm::ExecutionInput<StdLibState>,
+        input: &mut vm::ExecutionInput<S>,
         token: token::Token,
         _: char,
     ) -> texlang::prelude::Result<()> {
@@ -168,7 +173,7 @@ impl vm::Handlers<StdLibState> for Rec {
         Ok(())
     }
     fn undefined_command_handler(
-        input: &mut vm::ExecutionInput<StdLibState>,
+        input: &mut vm::ExecutionInput<S>,
         token: token::Token,
     ) -> texlang::prelude::Result<()> {
         let t = tok_of_value(token.value(), input.vm().cs_name_interner());
@@ -244,6 +249,132 @@ fn run_tex(src: &str) -> Result<Obs, String> {
         let seen = SEEN.with(|s| s.borrow().clone());
         Obs { err, seen, toks0 }
     })
+}
+
+// A state type with an in-memory file system (the real `\\input` reads from it); everything
+// else as in `StdLibState`. Used by the source-boundary stream.
+#[derive(Default)]
+struct FState {
+    alloc: lib::alloc::Component,
+    codes_cat_code: lib::codes::Component<types::CatCode>,
+    codes_math_code: lib::codes::Component<types::MathCode>,
+    conditional: lib::conditional::Component,
+    end_line_char: lib::endlinechar::Component,
+    error_mode: lib::errormode::Component,
+    input: lib::input::Component<16>,
+    job: lib::job::Component,
+    prefix: lib::prefix::Component,
+    registers_i32: lib::registers::Component<i32, 32768>,
+    registers_scaled: lib::registers::Component<common::Scaled, 32768>,
+    registers_glue: lib::registers::Component<common::Glue, 32768>,
+    registers_token_list: lib::registers::Component<Vec<token::Token>, 256>,
+    repl: lib::repl::Component,
+    script: lib::script::Component,
+    time: lib::time::Component,
+    tracing_macros: lib::tracingmacros::Component,
+    file_system: Rc<RefCell<tc::InMemoryFileSystem>>,
+    terminal_in: Rc<RefCell<tc::MockTerminalIn>>,
+}
+
+impl vm::TexlangState for FState {
+    fn cat_code(&self, c: char) -> types::CatCode {
+        lib::codes::cat_code(self, c)
+    }
+    fn end_line_char(&self) -> Option<char> {
+        lib::endlinechar::end_line_char(self)
+    }
+    fn expansion_override_hook(
+        token: token::Token,
+        input: &mut vm::ExpansionInput<Self>,
+        tag: Option<command::Tag>,
+    ) -> texlang::prelude::Result<Option<token::Token>> {
+        lib::expansion::noexpand_hook(token, input, tag)
+    }
+    fn variable_assignment_scope_hook(state: &mut Self) -> texcraft_stdext::collections::groupingmap::Scope {
+        lib::prefix::variable_assignment_scope_hook(state)
+    }
+    fn recoverable_error_hook(
+        &self,
+        recoverable_error: error::TracedTexError,
+    ) -> Result<(), Box<dyn error::TexError>> {
+        lib::errormode::recoverable_error_hook(self, recoverable_error)
+    }
+}
+
+impl lib::the::TheCompatible for FState {}
+
+implement_has_component![FState{
+    alloc: lib::alloc::Component,
+    codes_cat_code: lib::codes::Component<types::CatCode>,
+    codes_math_code: lib::codes::Component<types::MathCode>,
+    conditional: lib::conditional::Component,
+    end_line_char: lib::endlinechar::Component,
+    error_mode: lib::errormode::Component,
+    input: lib::input::Component<16>,
+    job: lib::job::Component,
+    prefix: lib::prefix::Component,
+    registers_i32: lib::registers::Component<i32, 32768>,
+    registers_scaled: lib::registers::Component<common::Scaled, 32768>,
+    registers_glue: lib::registers::Component<common::Glue, 32768>,
+    registers_token_list: lib::registers::Component<Vec<token::Token>, 256>,
+    repl: lib::repl::Component,
+    script: lib::script::Component,
+    time: lib::time::Component,
+    tracing_macros: lib::tracingmacros::Component,
+}];
+
+impl tc::HasLogging for FState {
+    fn terminal_out(&self) -> Rc<RefCell<dyn std::io::Write>> {
+        Rc::new(RefCell::new(std::io::sink()))
+    }
+}
+impl tc::HasFileSystem for FState {
+    fn file_system(&self) -> Rc<RefCell<dyn tc::FileSystem>> {
+        self.file_system.clone()
+    }
+}
+impl tc::HasTerminalIn for FState {
+    fn terminal_in(&self) -> Rc<RefCell<dyn tc::TerminalIn>> {
+        self.terminal_in.clone()
+    }
+}
+
+/// One real run of `main` with the file `inner.tex` available to `\\input`.
+fn run_tex_files(main: &str, inner: &str) -> Result<Obs, String> {
+    caught(|| {
+        SEEN.with(|s| s.borrow_mut().clear());
+        let built_ins: HashMap<&'static str, command::BuiltIn<FState>> = lib::built_in_commands::<FState>();
+        let mut vm = vm::VM::<FState>::new_with_built_in_commands(built_ins);
+        let mut fs = tc::InMemoryFileSystem::new(vm.working_directory.as_ref().unwrap());
+        fs.add_string_file("inner.tex", inner);
+        vm.state.file_system = Rc::new(RefCell::new(fs));
+        vm.push_source("main.tex", main.to_string()).unwrap();
+        let r = vm.run::<Rec>();
+        let err = r.err().map(|e| err_class(&e.error.title()));
+        let toks0 = vm.state.registers_token_list.values()[0]
+            .iter()
+            .map(|t| tok_of_value(t.value(), vm.cs_name_interner()))
+            .collect();
+        let seen = SEEN.with(|s| s.borrow().clone());
+        Obs { err, seen, toks0 }
+    })
+}
+
+/// How a case is turned into TeX source.
+#[derive(Clone, Copy, PartialEq, Eq, Debug)]
+enum Mode {
+    /// definition and call written out in one source
+    Plain,
+    /// both are the body of a wrapper macro (`render_wrapped`)
+    Wrapped,
+    /// as `Plain`, but `\\x` and `\\y` are macros while the call scans its arguments (`\\def\\x{?}`,
+    /// `\\def\\y#1{!}`); the replacement text starts with `\\l\\x{;}\\l\\y{:}` (`\\l` = `\\def`), so when
+    /// the expansion is executed an `\\x` bound as a token is delivered as `;` and `\\y` as `:`
+    /// (read back as the tokens), while an argument bound *expanded* shows `?` / `!`.
+    Expandable,
+    /// the call is at the end of `inner.tex`; input[..i] is in that file, input[i..j] are pending
+    /// (already expanded) tokens of the enclosing source, input[j..] is in its lexer
+    File(usize, usize),
 }
 
 fn balanced(ts: &[T]) -> bool {
@@ -411,6 +542,77 @@ impl C02 {
             }
             if balanced(&c.input) {
                 return c;
+            }
+        }
+    }
+    const X_PREFIX: &'static [&'static str] = &["\\l", "\\x", "{", ";", "}", "\\l", "\\y", "{", ":", "}"];
+    /// A case for the expandable-token stream (`Mode::Expandable`): `\\x` and `\\y` (macros
+    /// while the arguments are scanned) inside and between the arguments, braced and unbraced,
+    /// nested, delimited and undelimited; the replacement text starts with their redefinition.
+    fn gen_expandable(rng: &mut Rng) -> SpecCase {
+        let mut c = Self::gen_spec_with(rng, false);
+        let mut any = false;
+        for t in c.input.iter_mut() {
+            if matches!(t, T::Ch('b') | T::Ch('1') | T::Cs(',') | T::Ch('[') | T::Ch(']')) && rng.chance(2, 3) {
+                *t = if rng.chance(1, 2) { T::Cs('x') } else { T::Cs('y') };
+                any = true;
+            }
+        }
+        if !any {
+            let k = rng.below(c.input.len() as u64 + 1) as usize;
+            c.input.insert(k, T::Cs('x'));
+        }
+        let mut body: Vec<String> = Self::X_PREFIX.iter().map(|s| s.to_string()).collect();
+        body.extend(c.body.iter().cloned());
+        c.body = body;
+        Self::normalise(&mut c);
+        c
+    }
+    /// `f` case line: the input with the two `F` marks after `i` and `j` tokens.
+    fn file_line(c: &SpecCase, i: usize, j: usize) -> String {
+        let mut h = c.clone();
+        h.input.clear();
+        let mut line = format!("f {}", h.sections());
+        for (k, t) in c.input.iter().enumerate() {
+            if k == i {
+                line.push_str(" F");
+            }
+            if k == j {
+                line.push_str(" F");
+            }
+            line.push(' ');
+            line.push_str(&word(*t));
+        }
+        if i >= c.input.len() {
+            line.push_str(" F");
+        }
+        if j >= c.input.len() {
+            line.push_str(" F");
+        }
+        line
+    }
+    fn file_split_ok(input: &[T], i: usize, j: usize) -> bool {
+        let (p0, p1, p2) = (&input[..i], &input[i..j], &input[j..]);
+        p0.last() != Some(&T::Sp) && balanced(p1) && representable(p1, true) && representable(p2, false) && p2.last() != Some(&T::Sp)
+    }
+    /// A case for the source-boundary stream (`Mode::File`).
+    fn gen_file(rng: &mut Rng) -> String {
+        loop {
+            let c = Self::gen_spec(rng);
+            let n = c.input.len();
+            for _ in 0..8 {
+                let i = match rng.below(4) {
+                    0 => 0,
+                    _ => rng.below(n as u64 + 1) as usize,
+                };
+                let j = match rng.below(4) {
+                    0 => i,
+                    1 => n,
+                    _ => i + rng.below((n - i) as u64 + 1) as usize,
+                };
+                if (i, j) != (n, n) && Self::file_split_ok(&c.input, i, j) {
+                    return Self::file_line(&c, i, j);
+                }
             }
         }
     }
@@ -860,8 +1062,9 @@ impl C02 {
         input: &[T],
         sections: Option<&str>,
         drv: &mut Driver,
-        wrapped: bool,
+        mode: Mode,
     ) {
+        let wrapped = mode == Mode::Wrapped;
         if wrapped {
             // the whole program is the body of a wrapper macro, see `render_wrapped`
             let mut all = r.def_toks.clone();
@@ -873,14 +1076,44 @@ impl C02 {
             }
             out.tag("name:via-wrapper-macro");
         }
+        // what directly follows the macro's name in the source
+        let after_name: &[T] = match mode {
+            Mode::File(i, _) => &input[..i],
+            _ => input,
+        };
         // the macro's name: a control symbol when a space token must follow it
-        let needs_symbol = !wrapped && (!representable(&r.def_toks, true) || !representable(input, true));
+        let needs_symbol = !wrapped && (!representable(&r.def_toks, true) || !representable(after_name, true));
         let name = if needs_symbol { "\\!" } else { "\\a" };
         out.tag(if needs_symbol { "name:control-symbol" } else { "name:control-word" });
-        if !wrapped && (!representable(&r.def_toks, !needs_symbol) || !representable(input, !needs_symbol) || r.def_res == "overrun") {
+        if !wrapped && (!representable(&r.def_toks, !needs_symbol) || !representable(after_name, !needs_symbol) || r.def_res == "overrun") {
             out.tag(if r.def_res == "overrun" { "skipped:definition-overruns-its-text" } else { "skipped:unrepresentable" });
             out.nontrivial = false;
             return;
+        }
+        if let Mode::File(i, j) = mode {
+            // the file must not end with a blank (trimmed), the pending tokens are the body of a
+            // macro (balanced, `#` doubled) after the blank that ends the file name
+            let (p0, p1, p2) = (&input[..i], &input[i..j], &input[j..]);
+            if p0.last() == Some(&T::Sp)
+                || !balanced(p1)
+                || !representable(p1, true)
+                || !representable(p2, false)
+                || p2.last() == Some(&T::Sp)
+                || r.def_res != "ok"
+            {
+                out.tag("skipped:unrepresentable");
+                out.nontrivial = false;
+                return;
+            }
+            out.tag(match (p0.is_empty(), p1.is_empty(), p2.is_empty()) {
+                (_, true, true) => "boundary:all-in-file",
+                (true, false, true) => "boundary:pending-only",
+                (true, true, false) => "boundary:lexer-only",
+                (true, false, false) => "boundary:pending+lexer",
+                (false, false, true) => "boundary:file+pending",
+                (false, true, false) => "boundary:file+lexer",
+                (false, false, false) => "boundary:file+pending+lexer",
+            });
         }
         let global = r.def_toks.len() % 2 == 1;
         let def_cmd = if global { "\\gdef" } else { "\\def" };
@@ -899,32 +1132,89 @@ impl C02 {
         }
         let mut call_src = String::from(name);
         if !needs_symbol {
-            if let Some(T::Ch(c)) = input.first() {
+            if let Some(T::Ch(c)) = after_name.first() {
                 if c.is_ascii_alphabetic() {
                     call_src.push(' ');
                 }
             }
         }
         if wrapped {
-            render_wrapped(input, &mut call_src);
+            render_wrapped(after_name, &mut call_src);
         } else {
-            render(input, &mut call_src);
+            render(after_name, &mut call_src);
         }
         // first line: no end-of-line character, so that the source ends exactly with the input
-        let (toks_src, direct_src) = if wrapped {
-            (
+        let mut inner_files: Option<(String, String)> = None;
+        let (toks_src, direct_src) = match mode {
+            Mode::Wrapped => (
                 format!("\\endlinechar=-1 \n\\def\\W#1{{{def_src}\\toks0\\expandafter{{{call_src}}}}}\\W{{ }}"),
                 format!("\\endlinechar=-1 \n\\def\\W#1{{{def_src}{call_src}}}\\W{{ }}"),
-            )
-        } else {
-            (
+            ),
+            Mode::Plain => (
                 format!("\\endlinechar=-1 \n{def_src}\\toks0\\expandafter{{{call_src}}}"),
                 format!("\\endlinechar=-1 \n{def_src}{call_src}"),
-            )
+            ),
+            Mode::Expandable => {
+                let pre = "\\let\\l\\def\\def\\x{?}\\def\\y#1{!}";
+                // The token-register run has no preamble (`\\x`, `\\y`, `\\l` stay undefined):
+                // assigning to a register expands what it reads (`Vec<Token>::parse` scans an
+                // expanding stream), so it cannot show *when* a macro was expanded; it still
+                // shows the braces exactly. The direct run is the one with live macros.
+                (
+                    format!("\\endlinechar=-1 \n{def_src}\\toks0\\expandafter{{{call_src}}}"),
+                    format!("\\endlinechar=-1 \n{pre}{def_src}{call_src}"),
+                )
+            }
+            Mode::File(i, j) => {
+                let mut pending = String::new();
+                {
+                    // body of a macro: `#` doubled
+                    let p1 = &input[i..j];
+                    let mut k = 0;
+                    while k < p1.len() {
+                        if p1[k] == T::Param {
+                            pending.push_str("##");
+                            k += 1;
+                        } else {
+                            let e = (k..p1.len()).find(|x| p1[*x] == T::Param).unwrap_or(p1.len());
+                            render(&p1[k..e], &mut pending);
+                            k = e;
+                        }
+                    }
+                }
+                let mut lexer = String::new();
+                render(&input[j..], &mut lexer);
+                inner_files = Some((format!("{def_src}\\toks0\\expandafter{{{call_src}"), format!("{def_src}{call_src}")));
+                (
+                    format!("\\endlinechar=-1 \n\\def\\?{{\\input inner {pending}}}\\?{lexer}}}"),
+                    format!("\\endlinechar=-1 \n\\def\\?{{\\input inner {pending}}}\\?{lexer}"),
+                )
+            }
         };
 
-        let runs = [("toks", true, toks_src), ("direct", false, direct_src)];
-        let observed: Vec<Result<Obs, String>> = runs.iter().map(|(_, _, src)| run_tex(src)).collect();
+        let runs = vec![("toks", true, toks_src), ("direct", false, direct_src)];
+        let observed: Vec<Result<Obs, String>> = runs
+            .iter()
+            .map(|(_, toks_mode, src)| match (&inner_files, *toks_mode) {
+                (Some((inner_toks, _)), true) => run_tex_files(src, inner_toks),
+                (Some((_, inner_direct)), false) => run_tex_files(src, inner_direct),
+                (None, _) => {
+                    let mut o = run_tex(src);
+                    if mode == Mode::Expandable {
+                        if let Ok(o) = o.as_mut() {
+                            for t in o.toks0.iter_mut().chain(o.seen.iter_mut()) {
+                                match (*t, *toks_mode) {
+                                    (T::Ch(';'), false) => *t = T::Cs('x'),
+                                    (T::Ch(':'), false) => *t = T::Cs('y'),
+                                    _ => {}
+                                }
+                            }
+                        }
+                    }
+                    o
+                }
+            })
+            .collect();
         // The known defect C02-a is only named when *every* run of the case (the exact token
         // register as well as the handler stream) shows exactly what the unpatched trimming
         // predicate predicts, and that differs from the patched prediction.
@@ -947,6 +1237,11 @@ impl C02 {
             } else {
                 out.tag(format!("{stream}:ok"));
             }
+            let src = &match (&inner_files, *toks_mode) {
+                (Some((it, _)), true) => format!("{src}\ninner.tex: {it}"),
+                (Some((_, id)), false) => format!("{src}\ninner.tex: {id}"),
+                _ => src.clone(),
+            };
             let shown = format!(
                 "source: {src}\nimpl: err={:?} register0=[{}] delivered=[{}]",
                 obs.err,
@@ -1014,6 +1309,10 @@ impl Property for C02 {
          plus every exhaustive input the lexer cannot produce, rendered as the body of a wrapper macro \\W#1{..} called as \\W{ } (space tokens written #1), so that token lists only expansion can produce reach Macro::call and \\def. \
          KMP: every delimiter over {a,b} of length <= 6 (8 thorough) x every argument P[..i]++P[j..] glued from a prefix and a suffix of the delimiter, every argument over {a,b} of length <= 8 for delimiters of length <= 5 (thorough), \
          and structured long delimiters (a^k b^m, (ab)^k a, (aab)^k, random, length <= 10) with arguments glued from random factors; four parameter-text shapes around them. \
+         x: the same product with \\x and \\y (macros - one with a parameter - while the call scans its arguments, redefined by the replacement text before #n is used) inside and between the arguments, \
+         exhaustively for 5 macros x inputs of length <= 4 (5 thorough) over { } \\x \\y . ; the handler stream shows whether a bound token was expanded early. \
+         f: the call sits at the end of a file read by the real \\input (in-memory file system); the input is split file | pending tokens of the enclosing source | its lexer, \
+         every split of every input of length <= 3 (4 thorough) for 5 macros, then random splits of the random product. \
          r: raw definition texts (exhaustive short ones over # 1 2 { } a, random longer ones, 9/10 parameters) with a short call. \
          Every case: real lexer, real \\def or \\gdef, real expansion, observed twice (token register, handler stream). \
          Non-trivial = the macro has at least one parameter and the call matches (spec verdict available) or the definition is rejected; distinct = distinct case string."
@@ -1059,6 +1358,16 @@ impl Property for C02 {
             "s P D a a . N B [ #1 ] I a a a . z",
             "s P D a . a . a N B [ #1 ] I a . a . a . a . a z",
             "s P D a . a b N B [ #1 ] I a . a . a b z",
+            // expandable tokens inside arguments stay unexpanded until the replacement is executed
+            "x P D N B \\l \\x { ; } \\l \\y { : } [ #1 ] I { \\x } z",
+            "x P D D . N B \\l \\x { ; } \\l \\y { : } [ #1 , #2 ] I { \\y } { a \\x } . \\x",
+            "x P D . D N B \\l \\x { ; } \\l \\y { : } [ #1 ] [ #2 ] I { \\x } \\y . { { \\y } \\x } \\y",
+            // the call at the end of an input file, arguments in the enclosing source
+            "f P D D N B [ #1 , #2 ] I F { x } y F z",
+            "f P D N B [ #1 ] I F { x } y F z",
+            "f P D D . N B [ #1 , #2 ] I { x F a F y } z . w",
+            "f P D . N B [ #1 ] I F F x . y",
+            "f P D . N B [ #1 ] I a F b F c . d",
             // token lists only expansion can produce (wrapper stream)
             "w P D N B [ #1 ] I _ _ x y",
             "w P D D N B [ #1 , #2 ] I _ _ _ x _ _ { y } z",
@@ -1175,6 +1484,69 @@ impl Property for C02 {
         // KMP stress
         let mut r = rng.fork();
         Self::gen_kmp(ctx.thorough, &mut r, &mut v);
+        // expandable tokens in the arguments: exhaustive small scope, then random
+        let pfx = Self::X_PREFIX.join(" ");
+        let xmacros = [
+            format!("P D N B {pfx} [ #1 ]"),
+            format!("P D . N B {pfx} [ #1 ]"),
+            format!("P D D N B {pfx} [ #2 , #1 ]"),
+            format!("P D D . N B {pfx} [ #1 , #2 ]"),
+            format!("P D H B {pfx} [ #1 ]"),
+        ];
+        let xalpha = [T::Bg, T::Eg, T::Cs('x'), T::Cs('y'), T::Ch('.')];
+        let xmax = if ctx.thorough { 5 } else { 4 };
+        for m in xmacros.iter() {
+            for len in 1..=xmax {
+                for idx in 0..(xalpha.len() as u64).pow(len as u32) {
+                    let mut x = idx;
+                    let ts: Vec<T> = (0..len)
+                        .map(|_| {
+                            let t = xalpha[(x % xalpha.len() as u64) as usize];
+                            x /= xalpha.len() as u64;
+                            t
+                        })
+                        .collect();
+                    if !ts.iter().any(|t| matches!(t, T::Cs(_))) {
+                        continue;
+                    }
+                    v.push(format!("x {m} I {}", words(&ts)));
+                }
+            }
+        }
+        let mut r = rng.fork();
+        for _ in 0..(if ctx.thorough { 40_000 } else { 4_000 }) {
+            v.push(Self::gen_expandable(&mut r).line_k("x"));
+        }
+        // the call at the end of an \\input file, its arguments in the enclosing source:
+        // every split of every small input, then random
+        let fmacros = ["P D N B [ #1 ]", "P D . N B [ #1 ]", "P D D N B [ #2 , #1 ]", "P D D . N B [ #1 , #2 ]", "P D . H B [ #1 ]"];
+        let fmax = if ctx.thorough { 4 } else { 3 };
+        for m in fmacros.iter() {
+            for len in 1..=fmax {
+                for idx in 0..(alpha.len() as u64).pow(len as u32) {
+                    let mut x = idx;
+                    let ts: Vec<T> = (0..len)
+                        .map(|_| {
+                            let t = alpha[(x % alpha.len() as u64) as usize];
+                            x /= alpha.len() as u64;
+                            t
+                        })
+                        .collect();
+                    let c = SpecCase { input: ts.clone(), ..SpecCase::parse(m) };
+                    for i in 0..=len {
+                        for j in i..=len {
+                            if (i, j) != (len, len) && Self::file_split_ok(&ts, i, j) {
+                                v.push(Self::file_line(&c, i, j));
+                            }
+                        }
+                    }
+                }
+            }
+        }
+        let mut r = rng.fork();
+        for _ in 0..(if ctx.thorough { 40_000 } else { 4_000 }) {
+            v.push(Self::gen_file(&mut r));
+        }
         // raw: render a structured case, then damage the definition text
         let mut r = rng.fork();
         for _ in 0..n_r {
@@ -1219,11 +1591,55 @@ impl Property for C02 {
         let mut out = CaseOutcome::default();
         let (cmd, rest) = case.split_once(' ').unwrap_or((case, ""));
         match cmd {
-            "s" | "w" => {
+            "s" | "w" | "x" | "f" => {
                 let wrapped = cmd == "w";
+                // `f`: the input carries two `F` marks (end of the file part, end of the pending part)
+                let mut marks: Vec<usize> = vec![];
+                let cleaned: String = if cmd == "f" {
+                    let mut n = 0usize;
+                    let mut in_input = false;
+                    let mut ws = vec![];
+                    for w in rest.split_ascii_whitespace() {
+                        if w == "I" {
+                            in_input = true;
+                        } else if w == "F" {
+                            marks.push(n);
+                            continue;
+                        } else if in_input {
+                            n += 1;
+                        }
+                        ws.push(w);
+                    }
+                    while marks.len() < 2 {
+                        marks.push(n);
+                    }
+                    ws.join(" ")
+                } else {
+                    rest.to_string()
+                };
+                let rest = cleaned.as_str();
                 let mut c = SpecCase::parse(rest);
-                if !wrapped {
+                if cmd == "s" || cmd == "x" {
                     Self::normalise(&mut c);
+                }
+                let mode = match cmd {
+                    "w" => Mode::Wrapped,
+                    "x" => Mode::Expandable,
+                    "f" => Mode::File(marks[0].min(c.input.len()), marks[1].max(marks[0]).min(c.input.len())),
+                    _ => Mode::Plain,
+                };
+                if mode == Mode::Expandable {
+                    // the redefinitions must open the replacement text (else `\\x` is still the
+                    // scan-time macro when the expansion is executed): not a case of this stream
+                    let ok = c.body.len() >= Self::X_PREFIX.len() && c.body.iter().zip(Self::X_PREFIX.iter()).all(|(a, b)| a == b);
+                    if !ok {
+                        out.tag("skipped:not-an-expandable-stream-case");
+                        return out;
+                    }
+                    out.tag("stream:expandable-tokens-in-arguments");
+                    if c.input.contains(&T::Cs('y')) {
+                        out.tag("input:macro-with-parameter");
+                    }
                 }
                 let line = c.line();
                 let reply = drv.ask(&line);
@@ -1286,7 +1702,7 @@ impl Property for C02 {
                 if c.delims.iter().any(|d| d.len() >= 5) {
                     out.tag("delimiter:length>=5");
                 }
-                self.compare(&mut out, &r, &c.input, Some(&sec), drv, wrapped);
+                self.compare(&mut out, &r, &c.input, Some(&sec), drv, mode);
             }
             "r" => {
                 let (d, i) = split_raw(rest);
@@ -1313,7 +1729,7 @@ impl Property for C02 {
                     out.tag(format!("model:{}", model_err_class(&r.call)));
                 }
                 out.nontrivial = r.def_res != "ok" || r.call.starts_with("ok");
-                self.compare(&mut out, &r, &c.input, None, drv, false);
+                self.compare(&mut out, &r, &c.input, None, drv, Mode::Plain);
             }
             _ => panic!("bad case {case}"),
         }
@@ -1324,7 +1740,40 @@ impl Property for C02 {
         let (cmd, rest) = case.split_once(' ').unwrap_or((case, ""));
         let mut v = vec![];
         match cmd {
-            "s" | "w" => {
+            "f" => {
+                let mut marks = vec![];
+                let mut n = 0usize;
+                let mut in_input = false;
+                let mut ws = vec![];
+                for w in rest.split_ascii_whitespace() {
+                    if w == "I" {
+                        in_input = true;
+                    } else if w == "F" {
+                        marks.push(n);
+                        continue;
+                    } else if in_input {
+                        n += 1;
+                    }
+                    ws.push(w);
+                }
+                while marks.len() < 2 {
+                    marks.push(n);
+                }
+                let c = SpecCase::parse(&ws.join(" "));
+                for k in 0..c.input.len() {
+                    let mut h = c.clone();
+                    h.input.remove(k);
+                    let i = if k < marks[0] { marks[0] - 1 } else { marks[0] };
+                    let j = if k < marks[1] { marks[1] - 1 } else { marks[1] };
+                    v.push(Self::file_line(&h, i, j.max(i)));
+                }
+                for k in 0..c.body.len() {
+                    let mut h = c.clone();
+                    h.body.remove(k);
+                    v.push(Self::file_line(&h, marks[0], marks[1]));
+                }
+            }
+            "s" | "w" | "x" => {
                 let c = SpecCase::parse(rest);
                 // drop single input tokens, body items, prefix tokens, delimiter tokens
                 if c.input.len() > 1 {
